@@ -191,6 +191,8 @@ impl Check for C11Check {
             1 if i % 64 == 33 => Kind::FullTpc { extra: *r.pick(&[1u8, 1, 1, 2]) },
             0 | 1 => Kind::Fwd { tracks: r.usize(2, 5), noise: *r.pick(&[0.0, 2.0, 5.0]), amp_scale: 1.0 },
             // hit patterns on calibrated real runs (maps, delays, calibration tables of that run)
+            // hits on pads with a hole in one of the run's calibration tables
+            2 if i % 32 == 26 => Kind::RealHits { run: *r.pick(&[11084u32, 11192, 12000, 11084, 9277]), pattern: 25, n: *r.pick(&[1usize, 2, 4]) },
             2 if i % 16 == 10 => Kind::RealHits { run: *r.pick(&[11084u32, 11192, 12000, 9277, 10418]), pattern: *r.pick(&[3u8, 1, 7, 5, 3]), n: *r.pick(&[256usize, 40, 256]) },
             2 => Kind::Hits { pattern: r.below(25) as u8, n: *r.pick(&[13usize, 20, 40, 256]) },
             // consistent events on calibrated real runs with every wire and several pad groups:
@@ -202,7 +204,7 @@ impl Check for C11Check {
             3 | 4 | 5 => Kind::EvFault {
                 base: BaseEvent { run: *r.pick(&[u32::MAX, u32::MAX, 11084, 9277]), seed: r.next_u64(), n_wires: *r.pick(&[1usize, 3, 9, 24, 40, 80, 256]), n_pad_msgs: r.usize(0, 4), long_only: r.chance(1, 2), pad_start: None, suppressed_only: false },
                 // duplicates (slots 3..=7) and pad faults favoured
-                slot: *r.pick(&[3usize, 4, 5, 6, 7, 9, 13, 14, 15, 16, 0, 2, 18, 100, 29, 30, 31, 29, 30, 31, 32, 33, 34, 34, 35, 36, 36, 13]),
+                slot: *r.pick(&[3usize, 4, 5, 6, 7, 9, 13, 14, 15, 16, 0, 2, 18, 100, 29, 30, 31, 29, 30, 31, 32, 33, 34, 34, 35, 36, 36, 13, 37]),
             },
             6 => Kind::Extreme { wires: *r.pick(&[2usize, 9, 40]), wire_mode: r.below(8) as u8, wire_len: *r.pick(&[101usize, 130, 300]), pad_msgs: r.usize(0, 3), pad_mode: r.below(8) as u8, pad_req: *r.pick(&[101u16, 120, 300]), pad_channels: *r.pick(&[3usize, 20, 79]), seam: r.chance(1, 2) },
             _ => Kind::Fwd { tracks: 2, noise: 0.0, amp_scale: *r.pick(&[0.2, 3.0]) },
@@ -239,7 +241,7 @@ impl Check for C11Check {
             let kind = if rp.chance(4, 5) {
                 Kind::EvFault {
                     base: BaseEvent { run: *rp.pick(&[u32::MAX, u32::MAX, 11084, 9277]), seed: rp.next_u64(), n_wires: *rp.pick(&[1usize, 3, 9]), n_pad_msgs: rp.usize(1, 4), long_only: rp.chance(1, 2), pad_start: None, suppressed_only: false },
-                    slot: rp.usize(0, 37),
+                    slot: rp.usize(0, 38),
                 }
             } else {
                 Kind::Extreme { wires: 2, wire_mode: rp.below(8) as u8, wire_len: 130, pad_msgs: rp.usize(1, 3), pad_mode: rp.below(8) as u8, pad_req: *rp.pick(&[101u16, 300, 511]), pad_channels: *rp.pick(&[3usize, 20, 79]), seam: false }
